@@ -144,6 +144,21 @@ def known_findings():
 
 # ---------------------------------------------------------------- reporting
 
+ASSUMPTIONS = {
+    '*': ['interned identifiers (strings -> Z) are injective',
+          'the theorems are about the Gallina model; the tie to /repo is the regenerated Gen/Facts.v plus the correspondence runs listed in obligation_list (sampled unless marked exhaustive)',
+          'the fuel given to on_merge / the evaluator in the model suffices (C05_fuel_irrelevant; bounds stated in the theorems otherwise)'],
+    'C06': ['files do not change during a build; the file system is the section variable exists_in; symbolic links are not modelled (normpath is lexical in the code as well)'],
+    'C07': ['recording callables stand for arbitrary targets; what runs INSIDE a called function is outside the model'],
+    'C10': ['callables are functions of their arguments'],
+    'C12': ['CPython compile / exec / eval and the execution of patched bytecode are outside the model (differential oracle only)'],
+    'C13': ['inspect.signature of the target is given; only its parameter kinds and names matter'],
+    'C18': ['PyYAML emitter / scanner are trusted; the dump model covers mappings, lists, scalars and null'],
+    'C19': ['pickle / copy protocols are trusted to call __reduce__ / __deepcopy__ as documented'],
+    'C20': ['threading.local gives per-thread storage; the GIL makes a Python line touching a slot atomic; state not found by the ast scan is not modelled'],
+}
+
+
 class Report:
     """Collects what one check run did; writes evidence; prints VIOLATION / KNOWN-FINDING lines."""
 
@@ -204,7 +219,7 @@ class Report:
                 samples=self.samples or [o[0] for o in self.obligations[:5]],
                 obligation_list=[dict(name=n, ok=ok, detail=d) for n, ok, d in self.obligations],
                 histogram=self.hist, known_findings_reproduced=self.known_hits, **self.extra),
-            assumptions=self.assumptions, wall_s=round(wall, 2), violations=len(self.violations))
+            assumptions=self.assumptions or ASSUMPTIONS.get(self.pid, []) + ASSUMPTIONS['*'], wall_s=round(wall, 2), violations=len(self.violations))
         os.makedirs(os.path.join(VERIF, 'evidence'), exist_ok=True)
         with open(os.path.join(VERIF, 'evidence', self.pid + '.json'), 'w') as f:
             json.dump(ev, f, indent=1, default=str)
